@@ -1236,9 +1236,9 @@ Lemma sim_putraw : forall m r b, Inv m -> sim_step m (OPutRaw r b).
 Proof. intros. left. reflexivity. Qed.
 
 (* ---- vdatas ------------------------------------------------------------------------------------------ *)
-Lemma sim_vsnew : forall m r n c, Inv m -> sim_step m (OVsNew r n c).
+Lemma sim_vsnew : forall m r n c fl, Inv m -> sim_step m (OVsNew r n c fl).
 Proof.
-  intros m r n c I. unfold sim_step. cbn [mstep step vss abs_state].
+  intros m r n c fl I. unfold sim_step. cbn [mstep step vss abs_state].
   destruct ((1 <=? r) && (r <=? 65535)) eqn:C; cbn [negb]; [|file_same I; right; reflexivity].
   apply andb_true_iff in C as [C1 C2]. apply Z.leb_le in C1. apply Z.leb_le in C2.
   destruct (tget r (m_vs m)) eqn:Es; [file_same I; right; reflexivity|].
@@ -1507,6 +1507,239 @@ Proof.
   right. cbn [fst snd]. split; [exact I'|split; [exact A'|right; rewrite L2; reflexivity]].
 Qed.
 
+(* ---- round 2: the VSgetvdatas / VSofclass family, VHmakegroup, Ventries, VQuerytag, Vgisinternal, Vflocate ---- *)
+Lemma vscheck_spec : forall t r q, vscheckclass t r q = vs_matches q r t.
+Proof.
+  intros. unfold vscheckclass, vs_matches, vs_class_match. destruct (tget r t) as [v|]; [|reflexivity].
+  destruct (s_class v); destruct q; reflexivity.
+Qed.
+
+Lemma enum_agree : forall (m : mstate) (s : state) u start n,
+  snd (enum_answer s u start n) = snd (match m_enum u start n with Some l => mok m l | None => (m, RFail) end) /\
+  fst (enum_answer s u start n) = s /\
+  fst (match m_enum u start n with Some l => mok m l | None => (m, RFail) end) = m.
+Proof.
+  intros. unfold enum_answer, m_enum, slice, mok. destruct (zlen u <? start); [auto|]. destruct (n =? 0); auto.
+Qed.
+
+Ltac enum_finish I E :=
+  let E1 := fresh in let E2 := fresh in let E3 := fresh in
+  destruct E as (E1 & E2 & E3); unfold abs_state in *; rewrite E1, E2, E3;
+  right; split; [exact I|split; [reflexivity|right; reflexivity]].
+
+Lemma sim_getvdatasf : forall m q start n, Inv m -> sim_step m (OGetVdatasF q start n).
+Proof.
+  intros m q start n I. destruct (Inv_tables m I) as (_ & _ & ND & NN & _). unfold sim_step.
+  cbn [mstep step vss abs_state]. destruct ((start <? 0) || (n <? 0)); [left; reflexivity|].
+  rewrite all_ids_keys by auto.
+  rewrite (filter_ext (fun id => vscheckclass (m_vs m) id q)
+             (fun id => match tget id (m_vs m) with Some v => vs_class_match q (s_class v) | None => false end))
+    by (intro; apply vscheck_spec).
+  rewrite (filter_keys_tget (fun v => vs_class_match q (s_class v)) (m_vs m) (m_vs m)) by (auto; apply incl_refl).
+  pose proof (enum_agree m (abs_state m) (keys (filter (fun e => vs_class_match q (s_class (snd e))) (m_vs m))) start n) as E.
+  enum_finish I E.
+Qed.
+
+Lemma sim_getvdatasg : forall m h q start n, Inv m -> sim_step m (OGetVdatasG h q start n).
+Proof.
+  intros m h q start n I. obs_start m I h.
+  destruct ((start <? 0) || (n <? 0)); [left; reflexivity|].
+  pose proof (idx_flat_map g (fun t r0 => if t =? DFTAG_VH
+             then (if vscheckclass (m_vs m) r0 q then [r0] else []) else []) W) as X. cbv beta in X. rewrite X. clear X.
+  assert (E : forall p : Z * Z,
+            (if fst p =? DFTAG_VH then (if vscheckclass (m_vs m) (snd p) q then [snd p] else []) else []) =
+            (if (fst p =? DFTAG_VH) && vs_matches q (snd p) (m_vs m) then [snd p] else [])).
+  { intros p. rewrite vscheck_spec. destruct (fst p =? DFTAG_VH); reflexivity. }
+  rewrite (flat_map_ext _ _ E), flat_map_filter.
+  change (vss (abs_state m)) with (m_vs m).
+  match goal with |- context [m_enum ?u start n] => pose proof (enum_agree m (abs_state m) u start n) as EA end.
+  destruct EA as (E1 & E2 & E3). rewrite E1, E2, E3. right. split; [exact I|split; [reflexivity|right; reflexivity]].
+Qed.
+
+Lemma sim_ventries : forall m r, Inv m -> sim_step m (OVentries r).
+Proof.
+  intros m r I. unfold sim_step. cbn [mstep step vgs abs_state].
+  destruct (r <? 1); [file_same I; right; reflexivity|].
+  destruct (u16 r) eqn:U; cbn [negb]; [|left; reflexivity].
+  rewrite (w16_id r U). unfold abs_table. rewrite tget_tmap.
+  destruct (tget r (m_vg m)) as [g|] eqn:Eg; cbn [option_map]; [|file_same I; right; reflexivity].
+  destruct (i_vg m I r g Eg) as [P _]. file_same I. right. cbn [abs_vg g_members].
+  rewrite (members_length g (wp_wf g P)). reflexivity.
+Qed.
+
+Lemma sim_querytag : forall m h, Inv m -> sim_step m (OQueryTag h).
+Proof. intros m h I. obs_start m I h. obs_same I. right. reflexivity. Qed.
+
+Lemma gr_name_nil : is_prefix GR_NAME [] = false.
+Proof. reflexivity. Qed.
+
+Lemma sim_gisinternal : forall m h, Inv m -> sim_step m (OGisInternal h).
+Proof.
+  intros m h I. obs_start m I h. unfold Visinternal, internal_class.
+  destruct (vgclass g) as [c|]; cbn [opt_bytes].
+  - destruct (cstr c) eqn:Ec.
+    + destruct (is_prefix GR_NAME (cstr (opt_bytes (vgname g)))); obs_same I; [left|right]; reflexivity.
+    + obs_same I. right. reflexivity.
+  - cbn [cstr]. destruct (vgname g) as [nm|]; cbn [opt_bytes].
+    + destruct (is_prefix GR_NAME (cstr nm)); obs_same I; [left|right]; reflexivity.
+    + cbn [cstr]. rewrite gr_name_nil. obs_same I. right. reflexivity.
+Qed.
+
+Lemma sim_flocate : forall m h f, Inv m -> sim_step m (OFlocate h f).
+Proof.
+  intros m h f I. obs_start m I h. destruct f as [|b f]; [left; reflexivity|].
+  pose proof W as [Lt Lr Hn Hm Hu]. unfold idx. rewrite map_idx_members by lia. fold (members g).
+  change (vss (abs_state m)) with (m_vs m).
+  destruct (flocate (b :: f) (m_vs m) (members g)); obs_same I; right; reflexivity.
+Qed.
+
+Lemma file_users_spec : forall m, Inv m ->
+  file_users m = keys (filter (fun e => negb (internal_class (g_class (snd e)))) (abs_table (m_hg m) (m_vg m))).
+Proof.
+  intros m I. destruct (Inv_tables m I) as (ND & NN & _). unfold file_users.
+  rewrite all_ids_keys by auto.
+  rewrite (filter_keys_tget user_created (m_vg m) (m_vg m)) by (auto; apply incl_refl).
+  unfold abs_table.
+  rewrite (filter_tmap_keys (abs_vg (m_hg m)) (fun g => negb (internal_class (g_class g))) user_created)
+    by (intros; symmetry; apply user_created_spec). reflexivity.
+Qed.
+
+Lemma vgroup_users_spec : forall m g, WF g ->
+  vgroup_users m g =
+  map snd (filter (fun p => (fst p =? DFTAG_VG) &&
+                            match tget (snd p) (abs_table (m_hg m) (m_vg m)) with
+                            | Some g2 => negb (internal_class (g_class g2)) | None => false end) (members g)).
+Proof.
+  intros m g W. unfold vgroup_users.
+  pose proof (idx_flat_map g (fun t r0 => if t =? DFTAG_VG
+             then match tget r0 (m_vg m) with
+                  | Some g2 => if user_created g2 then [r0] else []
+                  | None => [] end
+             else []) W) as X. cbv beta in X. rewrite X. clear X.
+  rewrite <- flat_map_filter. apply flat_map_ext. intros p. unfold abs_table. rewrite tget_tmap.
+  destruct (fst p =? DFTAG_VG); cbn [andb]; [|reflexivity].
+  destruct (tget (snd p) (m_vg m)); cbn [option_map]; [|reflexivity].
+  rewrite <- user_created_spec. reflexivity.
+Qed.
+
+Lemma zlen_map : forall A B (f : A -> B) l, zlen (map f l) = zlen l.
+Proof. intros. unfold zlen. rewrite map_length. reflexivity. Qed.
+
+Lemma sim_countvgroupsf : forall m start, Inv m -> sim_step m (OCountVgroupsF start).
+Proof.
+  intros m start I. unfold sim_step. cbn [mstep step vgs abs_state].
+  destruct (Z.ltb_spec start 0); [left; reflexivity|].
+  rewrite (file_users_spec m I).
+  set (u := filter (fun e => negb (internal_class (g_class (snd e)))) (abs_table (m_hg m) (m_vg m))).
+  assert (zlen (keys u) = zlen u) by (unfold keys; apply zlen_map). rewrite H0.
+  destruct (Z.ltb_spec 0 start).
+  - destruct (zlen u <? start); file_same I; left; reflexivity.
+  - replace (zlen u <? start) with false by (symmetry; apply Z.ltb_ge; unfold zlen; lia).
+    file_same I. right. reflexivity.
+Qed.
+
+Lemma sim_countvgroupsg : forall m h start, Inv m -> sim_step m (OCountVgroupsG h start).
+Proof.
+  intros m h start I. obs_start m I h. destruct (start <? 0); [left; reflexivity|].
+  rewrite (vgroup_users_spec m g W), zlen_map. fold (abs_table (m_hg m) (m_vg m)).
+  match goal with |- context [zlen ?u <? start] => destruct (zlen u <? start) end; obs_same I; right; reflexivity.
+Qed.
+
+(** VHmakegroup's loop appends the whole pair list *)
+Lemma addlist_pack : forall l g, WFpack g -> nvelt g + zlen l <= 65535 -> Forall pair_u16 l ->
+  exists g', addlist_loop g l = Some g' /\ WFpack g' /\ members g' = members g ++ l /\
+    (vgname g', vgclass g', oref g', access g') = (vgname g, vgclass g, oref g, access g) /\
+    (marked g = true -> marked g' = true).
+Proof.
+  induction l as [|[t r] l]; intros g P L F.
+  - exists g. split; [reflexivity|]. split; [exact P|]. split; [rewrite app_nil_r; reflexivity|]. split; [reflexivity|auto].
+  - inversion F as [|? ? [Ut Ur] F']; subst. cbn [fst snd] in *.
+    assert (ZL : zlen ((t, r) :: l) = 1 + zlen l) by (unfold zlen; cbn [length]; lia).
+    assert (0 <= zlen l) by (unfold zlen; lia).
+    cbn [addlist_loop]. unfold Vaddtagref. rewrite (w16_is t Ut), (w16_is r Ur).
+    destruct (vinsertpair_pack g t r P ltac:(lia) Ut Ur) as (g1 & n1 & E & P1 & M1 & N1 & N2 & F1).
+    rewrite E. injection F1 as f1 f2 f3 f4 f5.
+    destruct (IHl g1 P1 ltac:(lia) F') as (g' & E' & P' & M' & F2 & K').
+    exists g'. split; [exact E'|]. split; [exact P'|]. split; [rewrite M', M1, <- app_assoc; reflexivity|].
+    injection F2 as e1 e2 e3 e4. split; [congruence|]. intros _. apply K'. exact f5.
+Qed.
+
+Lemma opt_ok_spec : forall o, opt_ok o = true ->
+  match o with Some b => name_ok b = true /\ zlen b <= 65535 | None => True end.
+Proof.
+  intros [b|] H; [|exact Logic.I]. unfold opt_ok in H. apply andb_true_iff in H as [A B]. apply Z.leb_le in B. auto.
+Qed.
+
+Lemma sim_vhmakegroup : forall m r n c l, Inv m -> sim_step m (OVHMakeGroup r n c l).
+Proof.
+  intros m r n c l I. unfold sim_step. cbn [mstep step vgs abs_state].
+  destruct ((1 <=? r) && (r <=? 65535)) eqn:C; cbn [negb]; [|file_same I; right; reflexivity].
+  apply andb_true_iff in C as [C1 C2]. apply Z.leb_le in C1. apply Z.leb_le in C2.
+  unfold abs_table. rewrite tget_tmap.
+  destruct (tget r (m_vg m)) eqn:Eg; cbn [option_map]; [file_same I; right; reflexivity|].
+  destruct (opt_ok n && opt_ok c && forallb (fun p => u16 (fst p) && u16 (snd p)) l && (zlen l <=? 65535)) eqn:D;
+    [|left; reflexivity].
+  apply andb_true_iff in D as [D D4]. apply andb_true_iff in D as [D D3]. apply andb_true_iff in D as [D1 D2].
+  apply Z.leb_le in D4. apply opt_ok_spec in D1. apply opt_ok_spec in D2.
+  assert (Fl : Forall pair_u16 l).
+  { rewrite forallb_forall in D3. apply Forall_forall. intros p Hp. specialize (D3 p Hp).
+    apply andb_true_iff in D3 as [A B]. split; apply u16_is; auto. }
+  (* the vgroup built before the loop *)
+  set (g1 := match n with Some b => set_name (new_vgroup r) (set_string b) | None => new_vgroup r end).
+  set (g2 := match c with Some b => set_class g1 (set_string b) | None => g1 end).
+  assert (P1 : WFpack g1 /\ cstr (opt_bytes (vgname g1)) = opt_val n /\ vgclass g1 = None /\ members g1 = [] /\
+               oref g1 = r /\ marked g1 = true /\ nvelt g1 = 0).
+  { unfold g1. destruct n as [b|].
+    - destruct D1 as [N L]. destruct (set_name_pack (new_vgroup r) b (WFpack_new r) N L) as (Pa & _ & E).
+      split; [exact Pa|]. cbn. rewrite E, E. auto 10.
+    - split; [apply WFpack_new|]. cbn. auto 10. }
+  destruct P1 as (Pg1 & Nm1 & Cl1 & Mb1 & Or1 & Mk1 & Nv1).
+  assert (P2 : WFpack g2 /\ cstr (opt_bytes (vgname g2)) = opt_val n /\ cstr (opt_bytes (vgclass g2)) = opt_val c /\
+               members g2 = [] /\ oref g2 = r /\ marked g2 = true /\ nvelt g2 = 0).
+  { unfold g2. destruct c as [b|].
+    - destruct D2 as [N L]. destruct (set_name_pack g1 b Pg1 N L) as (_ & Pb & E).
+      split; [exact Pb|]. unfold set_class, set_string, members. cbn [vgname vgclass nvelt tag ref oref marked opt_bytes].
+      rewrite E, E. fold (members g1). auto 10.
+    - split; [exact Pg1|]. rewrite Cl1. cbn. auto 10. }
+  destruct P2 as (Pg2 & Nm2 & Cl2 & Mb2 & Or2 & Mk2 & Nv2).
+  destruct (addlist_pack l g2 Pg2 ltac:(lia) Fl) as (g3 & E3 & P3 & M3 & F3 & K3).
+  rewrite E3. injection F3 as e1 e2 e3 e4. rewrite Mb2 in M3. cbn [app] in M3.
+  pose proof (write_back_spec (m_file m) g3 r P3 ltac:(congruence) (i_sf m I)) as WB.
+  specialize (WB ltac:(intro X; rewrite (K3 Mk2) in X; discriminate)).
+  destruct (write_back (m_file m) g3) as [f g4].
+  destruct WB as (P4 & O4 & C4 & A4 & M4 & S4 & Sv4 & Fo & Fr).
+  assert (NotAtt : attached_in r (m_hg m) = false).
+  { destruct (attached_in r (m_hg m)) eqn:At; auto. unfold attached_in in At. apply existsb_exists in At.
+    destruct At as ([h' r'] & Hin & Er). cbn in Er. apply Z.eqb_eq in Er. subst r'.
+    exfalso. apply (i_hg m I h' r Hin). exact Eg. }
+  right. cbn [fst snd]. split; [|split; [|right; reflexivity]].
+  - constructor; cbn [m_vg m_vs m_file m_hg m_hs]; try apply I; auto.
+    + apply sorted_tins; auto. apply I.
+    + apply Forall_forall. intros x Hx. apply keys_tins_In in Hx. destruct Hx as [Hx|Hx].
+      * subst x. unfold key_ok, MAX_REF. lia.
+      * pose proof (i_rg m I) as F. rewrite Forall_forall in F. auto.
+    + intros k g E. destruct (Z.eq_dec k r).
+      * subst k. rewrite tget_tins_same in E by auto. injection E as E. subst g. auto.
+      * rewrite tget_tins_other in E by auto. apply (i_vg m I); auto.
+    + intros k g E Mk. destruct (Z.eq_dec k r).
+      * subst k. rewrite tget_tins_same in E by auto. injection E as E. subst g. congruence.
+      * rewrite tget_tins_other in E by auto. apply (i_mk m I k g); auto.
+    + intros k g E Mk. destruct (Z.eq_dec k r).
+      * subst k. rewrite tget_tins_same in E by auto. injection E as E. subst g. exact Sv4.
+      * rewrite tget_tins_other in E by auto.
+        destruct (i_sv m I k g E Mk) as (g0 & P0 & O0 & T0 & C0). exists g0.
+        split; [exact P0|split; [exact O0|split; [rewrite Fo by auto; exact T0|exact C0]]].
+    + intros k H. destruct (Z.eq_dec k r).
+      * subst k. rewrite tget_tins_same by auto. discriminate.
+      * rewrite tget_tins_other by auto. apply (i_fs m I). rewrite <- Fo by auto. exact H.
+    + intros h' r' H. destruct (Z.eq_dec r' r); [subst r'; rewrite tget_tins_same by auto; discriminate|].
+      rewrite tget_tins_other by auto. eapply (i_hg m I); eauto.
+  - unfold abs_state. cbn [m_vg m_vs m_hg m_hs]. f_equal.
+    unfold abs_table. rewrite <- tins_tmap. f_equal.
+    unfold abs_vg. rewrite NotAtt. cbn [andb].
+    unfold core in C4. injection C4 as c1 c2 c3. rewrite c1, c2, c3, e1, e2, Nm2, Cl2, M3. reflexivity.
+Qed.
+
 (* ================================================================================================== *)
 (** * Every operation, every history *)
 
@@ -1553,6 +1786,15 @@ Proof.
   - apply sim_vsfindclass; auto.
   - apply sim_getvgroupsf; auto.
   - apply sim_getvgroupsg; auto.
+  - apply sim_getvdatasf; auto.
+  - apply sim_getvdatasg; auto.
+  - apply sim_vhmakegroup; auto.
+  - apply sim_ventries; auto.
+  - apply sim_querytag; auto.
+  - apply sim_gisinternal; auto.
+  - apply sim_flocate; auto.
+  - apply sim_countvgroupsf; auto.
+  - apply sim_countvgroupsg; auto.
   - apply sim_getnext; auto.
   - apply sim_msize; auto.
   - apply sim_rawvg; auto.
